@@ -583,7 +583,49 @@ func genHostileFont(rng *rand.Rand) ([]byte, string) {
 	if mode == 0 && rng.IntN(8) == 0 {
 		mode = 5
 	}
+	if mode == 1 && rng.IntN(8) == 0 {
+		mode = 6
+	}
 	switch mode {
+	case 6:
+		// accented composites of accented composites: every glyph of a chain is
+		// assembled from two copies of the one before (codes of the standard
+		// encoding, A-Z then a-z), so the outlines double along the chain
+		links := []int{3, 8, 20, 24, 30, 40, 51}[rng.IntN(7)]
+		codes := make([]int, 0, 52)
+		for c := 'A'; c <= 'Z'; c++ {
+			codes = append(codes, int(c))
+		}
+		for c := 'a'; c <= 'z'; c++ {
+			codes = append(codes, int(c))
+		}
+		var gl []*ref.WGlyph
+		first := []byte{139, 255, 0, 0, 1, 244, 13} // 0 500 hsbw
+		for j, n := 0, 1+rng.IntN(3); j < n; j++ {
+			first = append(first, 139+10, 139+10, 21, 139+5, 139+7, 5, 9) // 10 10 rmoveto 5 7 rlineto closepath
+		}
+		first = append(first, 14)
+		gl = append(gl, &ref.WGlyph{Name: ".notdef", Den: 1, WX: 500, Raw: []byte{139, 139, 13, 14}}, &ref.WGlyph{Name: "A", Den: 1, Raw: first})
+		for i := 1; i <= links && i < len(codes); i++ {
+			var b []byte
+			b = append(b, 139, 255, 0, 0, 1, 244, 13) // 0 500 hsbw
+			num(&b, 0)
+			num(&b, int64(rng.IntN(3)))
+			num(&b, int64(rng.IntN(3)))
+			prev := int64(codes[i-1])
+			acc := prev
+			if rng.IntN(4) == 0 && i >= 2 {
+				acc = int64(codes[i-2])
+			}
+			num(&b, prev)
+			num(&b, acc)
+			b = append(b, 12, 6)
+			gl = append(gl, &ref.WGlyph{Name: string(rune(codes[i])), Den: 1, Raw: b})
+		}
+		mf.w.Glyphs = gl
+		mf.w.StdEncoding, mf.w.Encoding = true, nil
+		lay.RawSubrs = nil
+		desc = fmt.Sprintf("accented composites chained %d deep", links)
 	case 5:
 		// a call tree: subroutine k calls subroutine k-1 m times, the glyph
 		// calls the top one; m^depth calls from a file of a few hundred bytes
